@@ -164,7 +164,7 @@ def kvList (ign : Bool) : List Val → Val.KVs → Option (Out Val.KVs)
     match cutAt '=' s.toList with
     | none => if ign then none else some (.err "parse")
     | some (k, v) => kvList ign r (Val.insert (String.ofList k) (sv v) acc)
-  | _ :: _, _ => some (.panic "transform.transformKeyValue")
+  | _ :: _, _ => some (.err "type")   -- `e.(string)` checked since the C01 round-5 repair (was: panic transform.transformKeyValue)
 
 def transformKeyValue (ign : Bool) : Val → Out Val
   | .map m => .ok (.map m)
